@@ -457,6 +457,42 @@ def extract_unit(repo, unit_dir, out_path, variant=None):
             segs.replace(ob2 + 1, cut, '\n' + ha_['replacement'], 'rewrite', 'R8 head abstraction')
             log.append({'rule': "R8' head abstraction: body up to and including the anchor line replaced by an opaque call (result named by an uninterpreted spec function)", 'item': it['name'],
                         'anchor': ha_['regex'], 'dropped_lines': dropped.count('\n')})
+        # R8'': statement abstraction -- replace ONE statement (from an anchor line to its terminating `;`) by an opaque call
+        for ab in it.get('abstract_stmt', []):
+            text = segs.text()
+            m2 = rl.code_mask(text)
+            _, ob2, cb2 = _fn_header(text, m2, it['name'])
+            rx = re.compile(ab['regex'])
+            pos = ob2 + 1
+            hits = []
+            for line in text[ob2 + 1:cb2].split('\n'):
+                if line.strip() and rx.search(line):
+                    hits.append(pos)
+                pos += len(line) + 1
+            kk = ab.get('occurrence', 1)
+            if len(hits) < kk:
+                raise LostAnchor("fn %s: R8'' anchor /%s/ occurrence %d not found" % (it['name'], ab['regex'], kk))
+            ls = hits[kk - 1]
+            depth = 0
+            j = ls
+            end = None
+            while j < cb2:
+                if m2[j]:
+                    ch = text[j]
+                    if ch in '([{':
+                        depth += 1
+                    elif ch in ')]}':
+                        depth -= 1
+                    elif ch == ';' and depth == 0:
+                        end = j + 1
+                        break
+                j += 1
+            if end is None:
+                raise LostAnchor("fn %s: R8'' anchor statement has no end" % it['name'])
+            dropped = text[ls:end]
+            segs.replace(ls, end, ab['replacement'], 'rewrite', "R8'' statement abstraction")
+            log.append({'rule': "R8'' statement abstraction: one statement replaced by an opaque call whose result is named by an uninterpreted spec function", 'item': it['name'],
+                        'anchor': ab['regex'], 'dropped_lines': dropped.count('\n') + 1})
         # rewrites (single line, regex)
         for rw in spec.get('rewrites', []):
             if 'only' in rw and it['name'] not in rw['only']:
